@@ -120,4 +120,18 @@ def pyLitGet {κ ν : Type} [DecidableEq κ] (d : List (κ × ν)) (k : κ) : Ex
   | some v => .ok v
   | none => .error .keyError
 
+/-- a `UAQualifiedName` after `__post_init__`: `namespace_index` is a `np.uint16`, `name` a `str` -/
+structure QName where
+  ns : Nat
+  name : Str
+/-- `str()` of a non-negative numpy / Python integer -/
+instance : PyFormat Nat := ⟨showNat⟩
+
+/-- the `value` field of an integer built-in (`UASByte` … `UAUInt64`): `pd.NA` is `none` -/
+structure IntVal where
+  value : Option Int
+/-- the `value` field of `UABoolean`: `pd.NA` is `none` -/
+structure BoolVal where
+  value : Option Bool
+
 end Opcua
